@@ -681,7 +681,7 @@ func semDiscipline(c *an.Ctx, fn *ssa.Function, name string, isRelease func(*ssa
 	}
 	res := flow.Run()
 	if res.Blowup {
-		c.Undecided("%s", "semaphore discipline of " + name + ": state space too large")
+		c.Undecided("%s", "semaphore discipline of "+name+": state space too large")
 		return nil
 	}
 	nHeld := 0
@@ -786,6 +786,53 @@ func ctxErrAfterDone(e ssa.Value, at ssa.Instruction) bool {
 		return false
 	}
 	ctx := call.Common().Value
+	// inside a closure: the context is the enclosing function's, and the closure was created in the select case that
+	// received from its Done channel (a timer callback armed after the cancellation was observed)
+	if ld, isLd := an.Unwrap(ctx).(*ssa.UnOp); isLd {
+		if fv, isFV := ld.X.(*ssa.FreeVar); isFV {
+			fn := fv.Parent()
+			idx := -1
+			for i, f := range fn.FreeVars {
+				if f == fv {
+					idx = i
+				}
+			}
+			found := false
+			if fn.Parent() != nil && idx >= 0 {
+				an.Instrs(fn.Parent(), func(in ssa.Instruction) {
+					mc, isMC := in.(*ssa.MakeClosure)
+					if !isMC || mc.Fn != ssa.Value(fn) || idx >= len(mc.Bindings) {
+						return
+					}
+					bnd := mc.Bindings[idx]
+					for _, sc := range an.SelectGuards(mc.Block()) {
+						st := sc.State()
+						if st.Dir != types.RecvOnly {
+							continue
+						}
+						d, ok := st.Chan.(*ssa.Call)
+						if !ok || !d.Common().IsInvoke() || d.Common().Method.Name() != "Done" {
+							continue
+						}
+						v := an.Unwrap(d.Common().Value)
+						if u, isU := v.(*ssa.UnOp); isU && u.X == bnd {
+							found = true
+						}
+						if al, isAl := bnd.(*ssa.Alloc); isAl {
+							for _, r := range *al.Referrers() {
+								if stp, isSt := r.(*ssa.Store); isSt && stp.Addr == ssa.Value(al) && (stp.Val == v || an.Resolve(stp.Val) == an.Resolve(v)) {
+									found = true
+								}
+							}
+						}
+					}
+				})
+			}
+			if found {
+				return true
+			}
+		}
+	}
 	for _, sc := range an.SelectGuards(call.Block()) {
 		st := sc.State()
 		if st.Dir != types.RecvOnly {
